@@ -1364,7 +1364,8 @@ func (r *Restore) Peering(p *pbpeering.Peering) error {
 		return fmt.Errorf("failed restoring peering: %w", err)
 	}
 
-	if err := updatePeeringTableIndexes(r.tx, p.ModifyIndex, p.PartitionOrDefault()); err != nil {
+	// The index table is restored before the peerings, so only ever raise it.
+	if err := indexUpdateMaxTxn(r.tx, p.ModifyIndex, tablePeering); err != nil {
 		return err
 	}
 
@@ -1375,7 +1376,8 @@ func (r *Restore) PeeringTrustBundle(ptb *pbpeering.PeeringTrustBundle) error {
 	if err := r.tx.Insert(tablePeeringTrustBundles, ptb); err != nil {
 		return fmt.Errorf("failed restoring peering trust bundle: %w", err)
 	}
-	if err := updatePeeringTrustBundlesTableIndexes(r.tx, ptb.ModifyIndex, ptb.PartitionOrDefault()); err != nil {
+	// The index table is restored before the trust bundles, so only ever raise it.
+	if err := indexUpdateMaxTxn(r.tx, ptb.ModifyIndex, tablePeeringTrustBundles); err != nil {
 		return err
 	}
 	return nil
